@@ -90,6 +90,86 @@ func (e *penv) bindPath(fn *ssa.Function, p string, n int64) int {
 	return cnt
 }
 
+// bindField binds every load of field typ.field in fn (any base object).
+func (e *penv) bindField(fn *ssa.Function, typ, field string, n int64) int {
+	cnt := 0
+	allInstrs(fn, func(in ssa.Instruction) {
+		switch x := in.(type) {
+		case *ssa.UnOp:
+			if x.Op == token.MUL {
+				if fa, ok := x.X.(*ssa.FieldAddr); ok && isField(fa, typ, field) {
+					e.vals[x] = n
+					cnt++
+				}
+			}
+		case *ssa.Field:
+			if isField(x, typ, field) {
+				e.vals[x] = n
+				cnt++
+			}
+		}
+	})
+	return cnt
+}
+
+// bindNilTests binds the result of every comparison "v == nil" / "v != nil"
+// in fn whose non-nil operand satisfies sel, as if v were nil (isNil=true) or
+// non-nil.
+func (e *penv) bindNilTests(fn *ssa.Function, sel func(v ssa.Value) bool, isNilVal bool) int {
+	cnt := 0
+	allInstrs(fn, func(in ssa.Instruction) {
+		bo, ok := in.(*ssa.BinOp)
+		if !ok || (bo.Op != token.EQL && bo.Op != token.NEQ) {
+			return
+		}
+		var other ssa.Value
+		if isNilConst(bo.Y) {
+			other = bo.X
+		} else if isNilConst(bo.X) {
+			other = bo.Y
+		} else {
+			return
+		}
+		if !sel(other) {
+			return
+		}
+		res := isNilVal
+		if bo.Op == token.NEQ {
+			res = !isNilVal
+		}
+		if res {
+			e.vals[bo] = 1
+		} else {
+			e.vals[bo] = 0
+		}
+		cnt++
+	})
+	return cnt
+}
+
+// bindIndex0 binds every load of x[k] (constant k) where x satisfies sel.
+func (e *penv) bindIndexLoads(fn *ssa.Function, sel func(base ssa.Value) bool, k int64, n int64) int {
+	cnt := 0
+	allInstrs(fn, func(in ssa.Instruction) {
+		u, ok := in.(*ssa.UnOp)
+		if !ok || u.Op != token.MUL {
+			return
+		}
+		ia, ok := u.X.(*ssa.IndexAddr)
+		if !ok {
+			return
+		}
+		if idx, ok := constInt(ia.Index); !ok || idx != k {
+			return
+		}
+		if sel(ia.X) {
+			e.vals[u] = n
+			cnt++
+		}
+	})
+	return cnt
+}
+
 // bindLenPath binds len(x) for every x whose access path is p.
 func (e *penv) bindLenPath(fn *ssa.Function, p string, n int64) int {
 	cnt := 0
